@@ -645,14 +645,17 @@ def corr_norm(ctx) -> None:
     gc.storage = _Raises()
     gc.table_path = "/tmp/t"
     fn = getattr(gc, "_marker_targets", None) or getattr(gc, "_marker_target")
-    names = ["auto_1.parquet.inflight", "manifest_1_ab.avro.inflight", "x.inflight", ".inflight", "a.b.inflight"]
-    got = coqbuild.coq_eval(REQ, [f"marker_fallback {to_coq(n)}" for n in names])
+    # marker keys below metadata/inflight/: bare names (markers of older versions) and whole table-relative paths
+    names = ["auto_1.parquet.inflight", "manifest_1_ab.avro.inflight", "x.inflight", ".inflight", "a.b.inflight",
+             "data/auto_1.parquet.inflight", "data/p1/x.parquet.inflight", "data/p2/deep/x.parquet.inflight",
+             "metadata/manifests/manifest_1_ab.avro.inflight", "other/x.inflight", "data/.inflight", "datax/y.inflight"]
+    got = coqbuild.coq_eval(REQ, [f"marker_fallback {to_coq('metadata/inflight/' + n)} {to_coq(n.rsplit('/', 1)[-1])}" for n in names])
     bad = []
     for n, g in zip(names, got):
-        r = fn("metadata/inflight/" + n, n)
+        r = fn("metadata/inflight/" + n, n.rsplit("/", 1)[-1])
         r = {r} if isinstance(r, str) else set(r)
         if r != set(g):
-            bad.append({"basename": n, "code": sorted(r), "generated": sorted(g)})
+            bad.append({"marker": n, "code": sorted(r), "generated": sorted(g)})
 
     class _Rec:
         def __init__(self):
@@ -667,7 +670,8 @@ def corr_norm(ctx) -> None:
     tx = txmod.Transaction.__new__(txmod.Transaction)
     tx.file_manager = _FM()
     tx._inflight_markers = []
-    files = ["data/auto_1.parquet", "/data/auto_1.parquet", "metadata/manifests/manifest_1.avro", "metadata/manifests/manifest_list_9_1_ab.avro", "x"]
+    files = ["data/auto_1.parquet", "/data/auto_1.parquet", "metadata/manifests/manifest_1.avro", "metadata/manifests/manifest_list_9_1_ab.avro", "x",
+             "data/p1/x.parquet", "/data/p2/x.parquet", "//data/p2/deep/x.parquet"]
     got = coqbuild.coq_eval(REQ, [f"(register_marker_path {to_coq(f)}, register_marker_payload {to_coq(f)})" for f in files]
                             + ["(INFLIGHT_PATH, TX_INFLIGHT_PATH)", "(DEFAULT_INFLIGHT_TIMEOUT_MS, DEFAULT_GRACE_MS, TABLE_DEFAULT_GRACE_MS)"])
     import json as _json
